@@ -75,13 +75,13 @@ def _helper_table(funcs, names):
     return tab
 
 
-def canonical_pair(f, cls, rf, cls_r, new_helpers, gone_helpers, cur_consts, ref_consts):
+def canonical_pair(f, cls, rf, cls_r, new_helpers, gone_helpers, cur_consts, ref_consts, cur_props=None, ref_props=None):
     s1 = equiv.sized_chains(list(cls.body) if cls is not None else []) | {c for c in equiv.sized_chains([f]) if c[0] != 'self'}
     s2 = equiv.sized_chains(list(cls_r.body) if cls_r is not None else []) | {c for c in equiv.sized_chains([rf]) if c[0] != 'self'}
-    c1 = equiv.canonical(f, new_helpers, cur_consts, s1, cls.name if cls is not None else '')
+    c1 = equiv.canonical(f, new_helpers, cur_consts, s1, cls.name if cls is not None else '', cur_props)
     if c1 is None:
         return None, None
-    c2 = equiv.canonical(rf, gone_helpers, ref_consts, s2, cls_r.name if cls_r is not None else '')
+    c2 = equiv.canonical(rf, gone_helpers, ref_consts, s2, cls_r.name if cls_r is not None else '', ref_props)
     return c1, c2
 
 
@@ -96,6 +96,8 @@ def apply(cur_tree, ref_tree, prepare):
     gated = []
     cur_consts = equiv.module_constants(cur_tree)
     ref_consts = equiv.module_constants(ref_tree)
+    cur_props = equiv.module_properties(cur_tree)
+    ref_props = equiv.module_properties(ref_tree)
     for q, (f, body_list, cls) in cur.items():
         if q not in ref:
             continue
@@ -104,7 +106,7 @@ def apply(cur_tree, ref_tree, prepare):
             continue
         if [ast.dump(d) for d in f.decorator_list] != [ast.dump(d) for d in rf.decorator_list]:
             continue
-        c1, c2 = canonical_pair(f, cls, rf, ref[q][2], new_helpers, gone_helpers, cur_consts, ref_consts)
+        c1, c2 = canonical_pair(f, cls, rf, ref[q][2], new_helpers, gone_helpers, cur_consts, ref_consts, cur_props, ref_props)
         if c1 is None or c2 is None or c1 != c2:
             continue
         new_body = copy.deepcopy(rf.body)
